@@ -6,6 +6,7 @@ import (
 	"os"
 	"runtime"
 	"runtime/debug"
+	"strings"
 
 	"verif.local/harness/vrt"
 	"verif.local/harness/vutil"
@@ -22,6 +23,8 @@ type ConcCfg struct {
 	DFS     int      `json:"dfs"`
 	Preempt int      `json:"preempt"`
 	Sizes   []int    `json:"sizes"`
+	// FaultRelease > 0: the FaultRelease-th re-protection (Protect(NoAccess), i.e. a reader's release) after creation fails
+	FaultRelease int `json:"faultRelease"`
 }
 
 type cev map[string]interface{}
@@ -49,6 +52,7 @@ func concOnce(impl string, size int, cfg ConcCfg, s *vrt.Sched) (evs []cev, dead
 		if err != nil {
 			panic(err)
 		}
+		sh.FailNone = cfg.FaultRelease // counted from here: the creation's own Protect(NoAccess) is done
 		for r := 0; r < cfg.Readers; r++ {
 			vrt.Go(fmt.Sprintf("reader-%d", r), func() {
 				defer func() { done++; vrt.Released("reader.done") }()
@@ -82,7 +86,8 @@ func concOnce(impl string, size int, cfg ConcCfg, s *vrt.Sched) (evs []cev, dead
 						}
 						return nil
 					})
-					emit(cev{"e": "read", "g": vrt.GID(), "ok": err == nil, "saw": saw, "bytes": same, "prot": prot, "prot2": prot2})
+					emit(cev{"e": "read", "g": vrt.GID(), "ok": err == nil, "saw": saw, "bytes": same, "prot": prot, "prot2": prot2,
+						"fault": err != nil && strings.Contains(err.Error(), errInjected.Error())})
 				}
 			})
 		}
@@ -100,7 +105,9 @@ func concOnce(impl string, size int, cfg ConcCfg, s *vrt.Sched) (evs []cev, dead
 			emit(cev{"e": "closing", "g": vrt.GID()})
 			emit(cev{"e": "close", "g": vrt.GID(), "ok": sec.Close() == nil, "closed": sec.IsClosed()})
 		}
-		emit(cev{"e": "end", "closed": sec.IsClosed(), "mapped": sh.Mapped(), "readAfter": sec.WithBytes(func([]byte) error { return nil }) == nil})
+		// (an address just unmapped can be handed out again at once - a thread stack, say: only pages that still carry the secret's
+		// MADV_DONTDUMP mark are the secret's)
+		emit(cev{"e": "end", "closed": sec.IsClosed(), "mapped": sh.Mapped() && sh.Kernel().DontDump, "readAfter": sec.WithBytes(func([]byte) error { return nil }) == nil})
 	})
 	s.Run()
 	return evs, s.Dead, pan
